@@ -226,7 +226,7 @@ def batch(
                     n_done += 1
                     n_ops += r["n_ops"]
                     if digests_out:
-                        digests_all[r["seed"]] = r["digest"]
+                        digests_all[r["seed"]] = r["digest"] + "|" + r["verdict"]
                     digest_set.add(int(r["digest"][:16], 16))
                     if len(first_digests) < 4 * recheck_n and r["verdict"] == "ok":
                         first_digests[r["seed"]] = r["digest"]
